@@ -122,12 +122,15 @@ def perturb_params(params, fold=1, lower_bound=None, upper_bound=None):
         for ii,bound in enumerate(lower_bound):
             if bound is None:
                 lower_bound[ii] = -numpy.inf
-        pnew = numpy.maximum(pnew, 1.01*numpy.asarray(lower_bound))
+        lower_bound = numpy.asarray(lower_bound, dtype=float)
+        # Stay 1% inside the bound, whatever its sign
+        pnew = numpy.maximum(pnew, numpy.where(lower_bound < 0, 0.99, 1.01)*lower_bound)
     if upper_bound is not None:
         for ii,bound in enumerate(upper_bound):
             if bound is None:
                 upper_bound[ii] = numpy.inf
-        pnew = numpy.minimum(pnew, 0.99*numpy.asarray(upper_bound))
+        upper_bound = numpy.asarray(upper_bound, dtype=float)
+        pnew = numpy.minimum(pnew, numpy.where(upper_bound < 0, 1.01, 0.99)*upper_bound)
     return pnew
 
 def make_fux_table(fid, ts, Q, tri_freq):
